@@ -22,7 +22,8 @@ Answer:  <final> <path> <cors> <hits>     final = refused:<why> | handled:<patte
          id-unknown | mux-redirect | mux-notfound | panic;  path = r.URL.Path at the end (hex);
          cors = 0|1|2;  hits = invocations of probe-module handlers.
          `too-many-redirects` when the /id/ chain does not end within 16 hops, `bad-op` outside the domain
-         (malformed, unsafe path bytes, CONNECT with an unclean path, POST that can end at /stop).
+         (malformed, unsafe path bytes, CONNECT with an unclean path anywhere in the /id/ chain — the mux does
+         not canonicalise CONNECT —, POST that can end at /stop, which exits the process).
 -/
 import CaddyModel.C13.Model
 
@@ -153,11 +154,11 @@ def handle : List String → String
         else if !(pats.all validPat) || !distinct pats || !distinct (idx.map (·.1)) then "bad-op"
         else if m.isEmpty || !m.all alpha then "bad-op"
         else if p.head? != some slash || !p.all safeByte then "bad-op"
-        else if m == sCONNECT && !isCleanPath p then "bad-op"
         else match idChain idx maxHops p with
           | none => "too-many-redirects"
           | some chain =>
-            if m == sPOST && chain.contains pStop then "bad-op"
+            if m == sCONNECT && !chain.all isCleanPath then "bad-op"
+            else if m == sPOST && chain.contains pStop then "bad-op"
             else
               let hd := newAdminHandler ⟨os, eo, acl⟩ a (side == "R") pats
               let r : Req := ⟨m, h, p, up, o, rf, ou, ru, tls⟩
